@@ -154,3 +154,79 @@ Example C14_engine_nonvacuous :
   subst_line (ComposeSubst.engine_find 256 false (chars [233])) (chars [101]) false (chars ([99; 97; 102; 233] ++ [10]))
     = Changed (chars [99; 97; 102; 101; 10]).
 Proof. exact ComposeSubst.engine_nonvacuous. Qed.
+
+(* ------------------------------------------------------------------------------------------------
+   RE_NOTBOL (round e/f; proofs in coq/SubstNotbol.v, vocabulary in coq/SubstEngineDefs.v).  ec_substitute hands
+   RE_NOTBOL to rstr_find on every search after the first replacement of a line.  The property wants that flag to
+   mean "a line-start anchor does not hold at the first byte of this rest" and NOTHING else: every other way to
+   match -- an unanchored alternative of  ^A|B , any match further right -- must still be found. *)
+From NV Require SubstNotbol SubstEngineDefs ReVM ReSyntax RsetDefs.
+
+(* the atom level, exactly: under REG_NOTBOL the atom ^ at offset 0 fails; every other atom at every offset, and ^ at
+   every other offset (after an embedded newline), answers as without the flag -- for every flag word, text, atom, offset *)
+Theorem C14_notbol_atom : forall flg line a p,
+  ReVM.ratom_match (Z.lor flg GenConsts.REG_NOTBOL) line a p =
+  if SubstNotbol.bol_at_0 a p then ReSyntax.Ok None else ReVM.ratom_match flg line a p.
+Proof. exact SubstNotbol.ratom_match_notbol. Qed.
+Print Assumptions C14_notbol_atom.
+
+(* an attempt of the backtracking machine (re_recmatch: result AND number of depth cuts) that starts to the right of the
+   first byte is the same with and without the flag, for every program, recursion limit and text; so is regexec's loop
+   over the later start positions *)
+Theorem C14_notbol_later_attempt : forall d P flg line o, (1 <= o <= length line)%nat ->
+  ReVM.re_recmatch d P (Z.lor flg GenConsts.REG_NOTBOL) line o = ReVM.re_recmatch d P flg line o.
+Proof. exact SubstNotbol.recmatch_notbol_later. Qed.
+Print Assumptions C14_notbol_later_attempt.
+Theorem C14_notbol_later_starts : forall d P flg line k o s, (1 <= s)%nat ->
+  ReVM.re_loop d P (Z.lor flg GenConsts.REG_NOTBOL) line k o s = ReVM.re_loop d P flg line k o s.
+Proof. exact SubstNotbol.loop_notbol_later. Qed.
+Print Assumptions C14_notbol_later_starts.
+
+(* at any start position: the flag only removes choice paths.  An attempt that fails without the flag fails with it, and
+   a match whose choice path is a path of the semantics under the flag (no ^ passed at offset 0) is reported unchanged *)
+Theorem C14_notbol_keeps_failure : forall d P flg line o c, ReVM.re_recmatch d P flg line o = (ReVM.Fail, c) ->
+  exists c', ReVM.re_recmatch d P (Z.lor flg GenConsts.REG_NOTBOL) line o = (ReVM.Fail, c').
+Proof. exact SubstNotbol.recmatch_notbol_fail. Qed.
+Print Assumptions C14_notbol_keeps_failure.
+Theorem C14_notbol_keeps_match : forall d P flg line o cs r c, ReVM.re_recmatch d P flg line o = (ReVM.Found cs r, c) ->
+  ReVM.path ReVM.st (ReVM.atom_step (Z.lor flg GenConsts.REG_NOTBOL) line) ReVM.mark_step P 0 (o, repeat (-1)%Z ReVM.nmarks) cs r ->
+  exists c', ReVM.re_recmatch d P (Z.lor flg GenConsts.REG_NOTBOL) line o = (ReVM.Found cs r, c').
+Proof. exact SubstNotbol.recmatch_notbol_found. Qed.
+Print Assumptions C14_notbol_keeps_match.
+
+(* rstr_find: the "anchored at the line start, but not at the line start: no match" shortcut belongs to the literal leg.
+   A pattern rstr_simple does not take (an alternation, a group, a repetition, ...) is answered by rset_find with the
+   flags untouched, whatever its TEXT begins with *)
+Theorem C14_notbol_shortcut_literal_only : forall d ic pat ln nb, RstrDefs.rstr_simple ic pat = None ->
+  ComposeSubst.engine_find d ic pat ln nb = SubstEngineDefs.general_find d ic pat ln nb.
+Proof. exact SubstNotbol.engine_find_general. Qed.
+Print Assumptions C14_notbol_shortcut_literal_only.
+
+(* the matcher of ec_substitute on a compiled pattern: when no match at the first byte of the searched rest needs ^ to
+   hold there (SubstEngineDefs.start_indifferent: the attempt there fails even with ^ allowed, or the match it reports is
+   reached without passing ^ at offset 0 -- the unanchored alternative of  ^A|B ), the answer under RE_NOTBOL is the
+   answer without it: same match, same sixteen group pairs.  Every recursion limit, ignore-case on or off, any text. *)
+Theorem C14_notbol_engine : forall d ic pat ln rs, RstrDefs.rstr_simple ic pat = None ->
+  RsetDefs.rset_make [Some pat] (SubstEngineDefs.icflag ic) = ReSyntax.Ok (Some rs) -> SubstEngineDefs.start_indifferent d rs ln ->
+  ComposeSubst.engine_find d ic pat ln true = ComposeSubst.engine_find d ic pat ln false.
+Proof. exact SubstNotbol.engine_find_notbol. Qed.
+Print Assumptions C14_notbol_engine.
+
+(* non-vacuity, pattern ^a|b: both cases of start_indifferent occur ("cbab": nothing at the first byte, the b at offset 1
+   is found under RE_NOTBOL; "bab": the b AT the first byte is found under RE_NOTBOL, path [true] through the second
+   alternative), and through the scan  s/^a|b/X/g  turns "abab" into "XXaX",  s/^ +| +$//g  "  ab cd  " into "ab cd",
+   s/^é|ü/_/g  "éaüaü" into "_a_a_", while the wholly anchored  s/^a+/X/g  rewrites "aaa" to "X" *)
+Example C14_notbol_nonvacuous :
+  (exists rs, RsetDefs.rset_make [Some SubstNotbol.ex_pat] (SubstEngineDefs.icflag false) = ReSyntax.Ok (Some rs) /\
+    RstrDefs.rstr_simple false SubstNotbol.ex_pat = None /\
+    (exists c, SubstEngineDefs.first_attempt 256 rs [99; 98; 97; 98; 10] = (ReVM.Fail, c)) /\
+    ComposeSubst.engine_find 256 false SubstNotbol.ex_pat [99; 98; 97; 98; 10] true = Some ((1, 2)%Z :: repeat unset 15) /\
+    SubstEngineDefs.start_indifferent 256 rs [98; 97; 98; 10] /\
+    ComposeSubst.engine_find 256 false SubstNotbol.ex_pat [98; 97; 98; 10] true = Some ((0, 1)%Z :: repeat unset 15)) /\
+  subst_line (ComposeSubst.engine_find 256 false SubstNotbol.ex_pat) [88] true [97; 98; 97; 98; 10] = Changed [88; 88; 97; 88; 10] /\
+  subst_line (ComposeSubst.engine_find 256 false [94; 32; 43; 124; 32; 43; 36]) [] true [32; 32; 97; 98; 32; 99; 100; 32; 32; 10]
+    = Changed [97; 98; 32; 99; 100; 10] /\
+  subst_line (ComposeSubst.engine_find 256 false (chars [94; 233; 124; 252])) [95] true (chars [233; 97; 252; 97; 252; 10])
+    = Changed [95; 97; 95; 97; 95; 10] /\
+  subst_line (ComposeSubst.engine_find 256 false [94; 97; 43]) [88] true [97; 97; 97; 10] = Changed [88; 10].
+Proof. exact SubstNotbol.notbol_nonvacuous. Qed.
